@@ -159,6 +159,8 @@ def main():
     ap.add_argument("-k", action="append", default=[], help="only files whose name contains this substring")
     ap.add_argument("--out", default=os.path.join(HERE, "upstream_report.json"))
     ap.add_argument("--keep", action="store_true", help="keep the scratch directory")
+    ap.add_argument("--merge", action="store_true", help="with -k: replace the entries of the selected files in the "
+                    "existing report instead of writing <out>.partial")
     args = ap.parse_args()
 
     repo = vbuild.repo_dir()
@@ -198,6 +200,15 @@ def main():
         else:
             print("scratch kept:", scratch)
 
+    if args.k and args.merge and os.path.exists(args.out):
+        old = json.load(open(args.out))
+        new = dict((r["file"], r) for r in results)
+        results_all = [new.pop(r["file"], r) for r in old["files"]] + list(new.values())
+        results_all.sort(key=lambda r: r["file"])
+    else:
+        results_all = results
+    shown = results
+    results = results_all
     totals = {"passed": 0, "failed": 0, "error": 0, "skipped": 0}
     labels = {}
     for r in results:
@@ -207,13 +218,13 @@ def main():
             labels[f["label"]] = labels.get(f["label"], 0) + 1
     report = {"repo": repo, "variant": args.variant, "python": PY, "totals": totals, "labels": labels,
               "files": results}
-    if not args.k:
+    if not args.k or args.merge:
         with open(args.out, "w") as f:
             json.dump(report, f, indent=1, sort_keys=True)
     else:
         with open(args.out + ".partial", "w") as f:
             json.dump(report, f, indent=1, sort_keys=True)
-    for r in results:
+    for r in shown:
         flag = "" if not r["failures"] else "  <-- " + ", ".join(sorted(set(x["label"] for x in r["failures"])))
         print("%-75s p=%-3d f=%-3d e=%-3d s=%-3d %5.1fs%s" % (r["file"], r["passed"], r["failed"], r["error"],
                                                             r["skipped"], r["seconds"], flag))
